@@ -307,6 +307,36 @@ def tween_2(handler, registry):
     return handler
 
 
+_TDIR_ROOT = []
+
+
+def tdir(tag):
+    """translation directory sentinel: a real, empty directory under a tempfile root outside /repo and /verif (created on
+    first use, removed when the process exits); a tag ending in '/' gives the path with a trailing slash"""
+    import atexit, glob, shutil, tempfile, time
+    if not _TDIR_ROOT:
+        # roots left behind by a run that was killed (older than an hour) are removed first
+        for old in glob.glob(os.path.join(tempfile.gettempdir(), 'c20_tdirs_*')):
+            try:
+                if time.time() - os.path.getmtime(old) > 3600:
+                    shutil.rmtree(old, True)
+            except OSError:
+                pass
+        root = tempfile.mkdtemp(prefix='c20_tdirs_')
+        _TDIR_ROOT.append(root)
+        atexit.register(cleanup_tdirs)
+    name = str(tag).rstrip('/')
+    path = os.path.join(_TDIR_ROOT[0], 'locale_%s' % name)
+    os.makedirs(path, exist_ok=True)
+    return path + ('/' if str(tag).endswith('/') else '')
+
+
+def cleanup_tdirs():
+    import shutil
+    while _TDIR_ROOT:
+        shutil.rmtree(_TDIR_ROOT.pop(), True)
+
+
 class _Objs:
     """sentinel objects of one run, by tag"""
 
@@ -320,6 +350,8 @@ class _Objs:
                 return tuple(self.get(x) for x in tag)
             if kind == 'list':
                 return [self.get(x) for x in tag]
+            if kind == 'tdir':
+                return tdir(tag)
             key = (kind, tag)
             if key not in self.d:
                 self.d[key] = self.make(kind, tag)
@@ -652,7 +684,7 @@ def fam_args(rng, g, fam, key=None):
     if fam in ('add_view_predicate', 'add_route_predicate', 'add_subscriber_predicate'):
         a = {'name': 'pred%d' % k, 'factory': _tag(g, 'fn')}
         if fam != 'add_subscriber_predicate':
-            a['weighs_more_than'] = opt('xhr')
+            a['weighs_more_than'] = opt(rng.choice(['xhr', {'tup': ['xhr', 'request_method']}]))
             a['weighs_less_than'] = opt('request_method') if a['weighs_more_than'] is None else None
         return a
     if fam == 'add_view_deriver':
@@ -689,7 +721,8 @@ def fam_args(rng, g, fam, key=None):
     if fam == 'add_resource_url_adapter':
         return {'adapter': _tag(g, 'cls'), 'resource_iface': {'iface': 'riface%d' % k} if k else None}
     if fam == 'add_tween':
-        return {'tween_factory': 'harness_c20.tween_%d' % k, 'under': opt(rng.choice(['pyramid.tweens.excview_tween_factory', {'tup': ['INGRESS']}])) ,
+        return {'tween_factory': 'harness_c20.tween_%d' % k, 'under': opt(rng.choice(['pyramid.tweens.excview_tween_factory', {'tup': ['INGRESS']},
+                                         {'tup': ['INGRESS', 'pyramid.tweens.excview_tween_factory']}])),
                 'over': opt('MAIN')}
     if fam == 'add_static_view':
         return {'name': 'static%d' % k, 'path': rng.choice(['pyramid:config', 'pyramid:scripts/', 'pyramid:config/'])}
@@ -700,12 +733,21 @@ def fam_args(rng, g, fam, key=None):
         return {'to_override': ['pyramid:config/', 'pyramid:scripts/', 'zope.interface:common/'][k % 3],
                 'override_with': rng.choice(['pyramid.scripts:', 'pyramid.config:']), '_override': {'fn': 'ovjig'}}
     if fam == 'add_translation_dirs':
-        dirs = ['pyramid:config/', 'pyramid:scripts', 'zope.interface:common']
-        return {'*': [dirs[k % 3]] + ([dirs[(k + 1) % 3]] if key is None and rng.random() < 0.4 else [])}
+        # 1-4 pairwise different directories per call (a pool of its own per key, so that two statements of one program
+        # never share a slot), with and without trailing slash, one of them optionally a package asset spec; both modes
+        pool = [{'tdir': '%d%s' % (4 * (k % 3) + j, rng.choice(['', '/']))} for j in range(4)]
+        specs = rng.sample(pool, rng.choice([1, 2, 2, 3, 3, 4]))
+        if rng.random() < 0.3:
+            specs[rng.randrange(len(specs))] = ['pyramid:config/', 'pyramid:scripts', 'zope.interface:common'][k % 3]
+        a = {'*': specs}
+        if rng.random() < 0.5:
+            a['override'] = rng.random() < 0.5
+        return a
     if fam == 'set_view_mapper':
         return {'mapper': {'mappercls': _tag(g, 'cls')['cls']}}
     if fam == 'add_accept_view_order':
-        return {'value': 'Text/Z-%d' % k, 'weighs_more_than': opt('text/html'), 'weighs_less_than': None}
+        return {'value': 'Text/Z-%d' % k, 'weighs_more_than': opt(rng.choice(['text/html', {'list': ['Text/HTML', 'application/json']}])),
+                'weighs_less_than': None}
     raise RuntimeError('unknown family %s' % fam)
 
 
@@ -907,7 +949,7 @@ def build_args(st, objs):
         else:
             val = objs.get(v)
         if k == '*':
-            pos = list(val)
+            pos = [objs.get(x) for x in v]
         elif val is None and k not in ('iface', 'resource_iface', 'under', 'over', 'name', 'weighs_more_than', 'weighs_less_than', 'callback', 'factory'):
             continue            # leave the option at its default
         else:
@@ -1330,6 +1372,16 @@ def oracle_cfg(case, real):
                 # the chapter read from the tree under test (docs/narr/introspector.rst), not a frozen copy
                 out.append(('%s: the entry is filed under category %r, which docs/narr/introspector.rst does not document (its headings: %s)'
                             % (where, i.category_name, sorted(live_doc_categories())), None))
+            if 'title' in exp and i.title != exp['title']:
+                out.append(('%s: entry (%s, %r) records title %r, the value given at the same argument position is %r'
+                            % (where, i.category_name, exp.get('discr'), i.title, exp['title']), None))
+            if 'type_name' in exp and i.type_name != exp['type_name']:
+                out.append(('%s: entry (%s, %r) records type_name %r, expected %r' % (where, i.category_name, exp.get('discr'), i.type_name, exp['type_name']), None))
+            if 'position' in exp:
+                mine = sorted([x for x in owned if x.category_name == i.category_name], key=lambda x: x.order)
+                if exp['position'] >= len(mine) or mine[exp['position']] is not i:
+                    out.append(('%s: the entries of this call are not listed in argument order: position %d of %r holds %r'
+                                % (where, exp['position'], i.category_name, [x.discriminator for x in mine]), None))
             if I.get(i.category_name, i.discriminator) is not i:
                 out.append(('%s: introspector.get(%r, …) does not return the statement\'s entry' % (where, i.category_name), None))
             for key, want in exp['keys'].items():
@@ -1446,8 +1498,10 @@ def expected_entries(slice_name, d, a, info, objs, renderer_factories):
         for sp in info['pos']:
             sp2 = sp if sp.endswith('/') else sp + '/'
             directory = AssetResolver('harness_c20').resolve(sp2).abspath()
+            # every value of one entry comes from the same argument position
             out.append({'doc': 'translation directories', 'src': 'translation directories', 'discr': directory,
-                        'keys': {'directory': [directory], 'spec': [sp2]}})
+                        'keys': {'directory': [directory], 'spec': [sp2]}, 'title': sp2, 'type_name': 'translation directory',
+                        'position': len(out)})
         return out
     for var, (doc, src, _) in spec.items():
         e = {'doc': doc, 'src': src, 'keys': keys_of(var)}
@@ -1489,6 +1543,18 @@ def expected_entries(slice_name, d, a, info, objs, renderer_factories):
         else:
             e['discr'] = None
         out.append(e)
+        if slice_name == 'add':
+            # the same call also declares the route and the view that serve the files: all three entries must
+            # describe the same name
+            nm = _slash(a['name'])
+            pre = env.get('route_prefix')
+            rname = ('__%s/%s' % (pre, nm)) if pre else '__%s' % nm
+            pat = '%s*subpath' % nm
+            if pre:
+                pat = pre.rstrip('/') + '/' + pat.lstrip('/')
+            out.append({'doc': 'routes', 'src': 'routes', 'discr': rname, 'keys': {'name': [rname], 'pattern': [pat]}, 'open': True})
+            out.append({'doc': 'views', 'src': 'views', 'keys': {'route_name': [rname], 'name': ['']}, 'open': True,
+                        'rel': [('routes', rname)]})
     return out
 
 
@@ -1724,7 +1790,7 @@ KINDS = [('could not be declared/committed', 'invalid'), ('oracle crashed', 'inv
          ('is filed under category', 'category'), ('does not document', 'category'), ('overridden through conflict resolution but owns', 'overridden-owns'),
          ('introspection off', 'flag'), ('introspection is off', 'flag'), ('does not point at the statement', 'info'),
          ('no parameter accounts for', 'extra-keys'), ('not related both ways', 'relation'), ('is related to', 'relation'),
-         ('expected relation', 'relation'), ('does not return the statement', 'get'), ('records', 'value'),
+         ('expected relation', 'relation'), ('does not return the statement', 'get'), ('records title', 'value'), ('not listed in argument order', 'order'), ('records', 'value'),
          ('operation', 'ops-law')]
 
 
@@ -1849,6 +1915,13 @@ def sweep_cases():
                 out.append({'stream': 'cfg', 'introspection': True, 'autocommit': True, 'commits': [[n] for n in t1 + t2]})
             else:
                 out.append({'stream': 'cfg', 'introspection': True, 'commits': [t1, t2]})
+    # add_translation_dirs with 1..4 pairwise different directories in one call, every override mode
+    for n in (1, 2, 3, 4):
+        for ov in (None, False, True):
+            args = {'*': [{'tdir': '%d%s' % (j, '/' if j % 2 else '')} for j in range(n)]}
+            if ov is not None:
+                args['override'] = ov
+            out.append({'stream': 'cfg', 'introspection': True, 'tree': [{'stmt': {'id': 1, 'dir': 'add_translation_dirs', 'args': args}}]})
     # both settings of the two CSRF origin options, and a nested configurator below an introspection-off root
     for co in (True, False):
         out.append({'stream': 'cfg', 'introspection': True, 'tree': [{'stmt': {'id': 1, 'dir': 'set_default_csrf_options', 'args': {
@@ -1861,6 +1934,13 @@ def sweep_cases():
 
 
 def run(ctx):
+    try:
+        return _run(ctx)
+    finally:
+        cleanup_tdirs()
+
+
+def _run(ctx):
     import random
     dist, samples, mism, viol = {}, [], [], []
     seen, nontriv = set(), set()
@@ -1989,6 +2069,13 @@ def _walk_stmts(nodes):
 
 
 def search(ctx):
+    try:
+        return _search(ctx)
+    finally:
+        cleanup_tdirs()
+
+
+def _search(ctx):
     """after a break: the deterministic sweep plus a thorough-volume random stream, property oracle only"""
     import random
     viol, searched = [], 0
@@ -2021,6 +2108,13 @@ def search(ctx):
 
 
 def replay(ctx, rep):
+    try:
+        return _replay(ctx, rep)
+    finally:
+        cleanup_tdirs()
+
+
+def _replay(ctx, rep):
     case = rep['case']
     r = evaluate(ctx, case)
     unknown = [d for d, f in r['violations'] if f is None]
